@@ -175,7 +175,7 @@ func oracleC13(ctx *progCtx) {
 
 func checkC13(cfg *core.Config) int {
 	rep := core.NewReport(cfg)
-	progs := routeProgs(cfg.Seed, cfg.Pick(16, 200))
+	progs := routeProgs(cfg.Seed, cfg.Pick(16, 1500))
 	progs = append(progs, pinnedPrograms("C13")...)
 	pl := NewPipeline(cfg, rep, progs, true)
 	defer pl.Close()
